@@ -1,3 +1,4 @@
+import MpsProps.Anchors.C09
 import MpsProofs.Session
 import MpsProps.Src.SrcCmpKeygen
 import MpsProps.Src.SrcCmpSign
